@@ -75,6 +75,7 @@ def run(ctx, tier):
     results += ob['O1'] + ob['O2'] + ob['O3'] + ob['O4']
     results += c09.writer_reads_after_lock(ctx, rule='C04.writer-snapshot')
     results += c03.sorted_registry(ctx, rule='C04.registry-discipline')
+    results += c03.release_sites(ctx, rule='C04.release-site')
     results += c03.deregister_only_own(ctx, rule='C04.deregister-only-own')
     return dict(
         results=results, stats=dict(ctx.stats),
